@@ -394,7 +394,7 @@ func c18bBody(env *simrt.Env) {
 		}
 		selfEnded := w.pump(o.onBlock, func() bool {
 			o.checkLive("")
-			enough := time.Since(began) >= runFor && w.sessDeliv >= 6*len(w.groups)
+			enough := time.Since(began) >= runFor && w.sessDeliv >= 6*len(w.groups) && (!w.big || w.flushedRun || w.stop)
 			if !last {
 				// like a client's Stop: at any moment, whatever is in the ring or under way
 				return enough || time.Since(began) > limit
@@ -433,7 +433,7 @@ func c18bBody(env *simrt.Env) {
 	if !w.faulted && (w.mode != 0 || w.staleWhole+w.stalePartial > 0) {
 		o.w.fail("harness.nominal", "harness:fault-in-nominal", "faults in a nominal run")
 	}
-	env.Sample(map[string]interface{}{"ring_bytes": w.size, "packet_bytes": w.psize, "ring_packets": w.npk, "extra_bytes": w.extra, "groups": len(w.groups), "channels": w.nchan,
+	env.Sample(map[string]interface{}{"big": w.big, "ring_bytes": w.size, "packet_bytes": w.psize, "ring_packets": w.npk, "extra_bytes": w.extra, "groups": len(w.groups), "channels": w.nchan,
 		"frames_per_packet": w.fpp, "period_us": int(w.period / time.Microsecond), "writer_mode": w.mode, "sessions": w.sessions, "packets_written": w.built, "old": w.nOld, "sampled": w.nSampled,
 		"discarded_at_startrun": w.nDiscarded, "delivered": w.nDelivered, "reads": w.nReads, "max_packets_per_read": w.maxPerRead, "truncated_writes": w.nTruncated,
 		"writer_waits": w.writerWaited, "blocks": o.blocks, "frames_out": o.emitted, "first_emitted_slot": g0, "dropped_reported": o.dropped})
